@@ -25,6 +25,8 @@ mod c05_digits;
 mod c11_expr;
 #[path = "../c16_subst.rs"]
 mod c16_subst;
+#[path = "../loaddump.rs"]
+mod loaddump;
 
 fn main() {
     let args: Vec<String> = std::env::args().collect();
@@ -53,6 +55,7 @@ fn main() {
         "c05" => c05_digits::run(&opts),
         "c11" => c11_expr::run(&opts),
         "c16" => c16_subst::run(&opts),
+        "defs" => loaddump::defs(&opts),
         "c11-one" => c11_expr::one(&opts),
         "c05-one" => c05_digits::one(&opts),
         "c07-one" => gen_names::one(&opts),
